@@ -471,14 +471,19 @@ def run(ctx):
     summary = {}
 
     # 1. the requirements hold on the model of a repaired dependency (bounded proof)
-    proofs = [("ops, 1 file, 2 handles", dict(Ops="<- OpsDict", Vals="<- VAll" if not ctx.quick else "<- VTypes", NVals="<- NVTypes", MapArgs="<- MapsTypes" if not ctx.quick else "<- MapsSmall",
+    proofs = [("ops, 1 file, 2 handles", dict(Ops="<- OpsDict", Vals="<- VTypes", NVals="<- NVTypes", MapArgs="<- MapsSmall",
                                               MaxLevel=4 if ctx.quick else 5)),
               ("buffering, 2 jobs + project, 2 handles each", dict(Files='{"j1", "j2", "p"}', JobFiles='{"j1", "j2"}', NHJob=2, NHProj=2, Ops="<- OpsBuf",
                                                                    Vals="<- VOne", MapArgs="<- MapsSmall",
-                                                                   Caps="<- CapsTwo" if ctx.quick else "<- CapsAll", MaxLevel=4 if ctx.quick else 5)),
+                                                                   Caps="<- CapsTwo", MaxLevel=4 if ctx.quick else 5)),
               ("buffering + life cycle, 1 job, 2 handles", dict(Ops="<- OpsLife", Vals="<- VOne" if ctx.quick else "<- VTwo", Caps="<- CapsAll",
                                                                 MaxLevel=5 if ctx.quick else 6))]
     if not ctx.quick:
+        proofs.append(("ops over the full value alphabet (1 / 1.0 / true / list / mapping), 1 file, 2 handles, <= 3 actions",
+                       dict(Ops="<- OpsDict", Vals="<- VAll", NVals="<- NVTypes", MapArgs="<- MapsTypes", MaxLevel=4)))
+        proofs.append(("buffering with capacities {none, 0, 1, 10}, 2 jobs + project, 2 handles each, <= 3 actions",
+                       dict(Files='{"j1", "j2", "p"}', JobFiles='{"j1", "j2"}', NHJob=2, NHProj=2, Ops="<- OpsBuf", Vals="<- VTwo", MapArgs="<- MapsSmall",
+                            Caps="<- CapsAll", MaxLevel=4)))
         proofs.append(("every operation, 2 jobs + project, 2 handles each, <= 3 actions",
                        dict(Files='{"j1", "j2", "p"}', JobFiles='{"j1", "j2"}', NHJob=2, NHProj=2, Ops="<- OpsAll", Vals="<- VOne", NVals="<- VOne",
                             MapArgs="<- MapsSmall", Caps="<- CapsTwo", MaxLevel=4)))
